@@ -109,7 +109,12 @@ def check_doc(case, fmt):
         kw = {}
     elif form.startswith('bytes:'):
         cs = form.split(':', 1)[1]
-        inp = txt.encode(cs)
+        try:
+            inp = txt.encode(cs)
+        except UnicodeEncodeError:
+            # a caller picks a charset that can carry the text; one that cannot is not a case
+            cs = 'utf-8'
+            inp = txt.encode(cs)
         kw = {'charset': cs}
     else:
         inp = json.loads(txt)
@@ -240,6 +245,9 @@ FIXED_INSTANTS = ['2021-01-15T12:00:00.000000', '2021-07-15T12:00:00.000000', '1
                   '2010-03-01T23:59:59.999999', '2021-03-28T01:30:00.000000', '2021-11-07T06:30:00.250000']
 
 
+_TZ_POOL = {}      # offset seconds -> the one tzinfo object used for it by this process (see model.SHARED_TZ)
+
+
 def fixed_offset_cases():
     for oi, off in enumerate(FIXED_OFFSETS):
         for ii, utc in enumerate(FIXED_INSTANTS):
@@ -266,7 +274,11 @@ def check_fixed_offset(case, fmt, how):
         m = ['grid', ver, [], [['a', [['cm', v]]]], [[['a', ['num', 1.0]]]]]
     else:
         m = ['grid', ver, [], [['a', []]], [[['a', ['list', [v, ['str', 'x'], v]]]]]]
-    g = model.grid_from_model(m)
+    model.SHARED_TZ = _TZ_POOL if case.get('shared_tz', True) else None
+    try:
+        g = model.grid_from_model(m)
+    finally:
+        model.SHARED_TZ = None
     mode = hszinc.MODE_ZINC if fmt == 'zinc' else hszinc.MODE_JSON
     try:
         txt = hszinc.dump(g, mode=mode)
